@@ -12,9 +12,14 @@ EXTENDS MRContract, Json
 
 CONSTANT Orders   \* subset of {"cancel-before-write", "ctx-before-write", "workers-held"}: directed scenarios to add
 
-VARIABLES sc, ord  \* ord = "": plain scenario; else what the driver establishes while the call runs (MRContract!Directed)
+CONSTANTS ValFams,  \* families (like Fams) that are also generated with the non-ordinary value kinds
+          Vals      \* subset of ValueKinds \ {"ord"}
 
-GInit == \/ IsScenario(sc) /\ ord = ""
+VARIABLES val,     \* value kind the user functions write (MRContract!ValueKinds); the contract does not depend on it
+          sc, ord  \* ord = "": plain scenario; else what the driver establishes while the call runs (MRContract!Directed)
+
+GInitOrd ==
+         \/ IsScenario(sc) /\ ord = ""
          \/ \E o \in Orders \cap {"cancel-before-write", "ctx-before-write"}, a \in {"MapReduce", "MapReduceChan"}, w \in 1..2,
                b1 \in {"cancelE", "cancelNil", "w0", "w1"}, b2 \in {"w0", "w1"}, c \in {"bg", "during"} :
               /\ sc = [api |-> a, n |-> 2, workers |-> w, mb |-> <<b1, b2>>, rstop |-> 0, rw |-> 1, rend |-> "ret",
@@ -25,10 +30,13 @@ GInit == \/ IsScenario(sc) /\ ord = ""
               /\ sc = [api |-> a, n |-> n, workers |-> w, mb |-> [i \in 1..n |-> b], rstop |-> -1,
                         rw |-> (IF a \in {"MapReduce", "MapReduceChan"} THEN 1 ELSE 0), rend |-> "ret", genk |-> -1, ctx |-> "bg"]
               /\ ord = o /\ Directed(sc, o)
-GNext == UNCHANGED <<sc, ord>>
-GSpec == GInit /\ [][GNext]_<<sc, ord>>
+GInit ==
+  \/ /\ val \in Vals /\ Vals \subseteq ValueKinds /\ ord = "" /\ IsScenarioIn(ValFams, sc)
+  \/ /\ val = "ord" /\ GInitOrd
+GNext == UNCHANGED <<sc, ord, val>>
+GSpec == GInit /\ [][GNext]_<<sc, ord, val>>
 
-CaseOf(s) == [order |-> ord, api |-> s.api, n |-> s.n, workers |-> s.workers, mb |-> s.mb, rstop |-> s.rstop, rw |-> s.rw,
+CaseOf(s) == [order |-> ord, val |-> val, api |-> s.api, n |-> s.n, workers |-> s.workers, mb |-> s.mb, rstop |-> s.rstop, rw |-> s.rw,
               rend |-> s.rend, genk |-> s.genk, ctx |-> s.ctx,
               allowed |-> IF ord \in {"cancel-before-write", "ctx-before-write"} THEN OrderedOutcomes(s) ELSE Outcomes(s),
               mapAll |-> MustMapAll(s), deliverAll |-> MustDeliverAll(s),
